@@ -256,3 +256,28 @@ Proof.
   assert (FA : fed (evs ++ repeat Call n) = w) by (rewrite fed_app, fed_calls, app_nil_r; exact F).
   exact (honest_never_stuck P c iv ms w sst _ _ _ _ OK LF IL S FA RA St).
 Qed.
+
+(* ---- integrity without any premise on an IV: links without encryption ----------------------------- *)
+Theorem stream_integrity_auth_only P c iv ms recs s :
+  prims_ok P -> auth c = true -> encr c = false ->
+  trace P c iv (sstate0 c iv) ms recs -> no_forgery P 1 recs s ->
+  exists n, stream_deliveries P c iv rstate0 s = firstn n ms.
+Proof.
+  intros [B ML DE EL EB] A E T NF.
+  unfold stream_deliveries. cbn [rstate0 r_buf r_iv negb app]. rewrite E. cbn [andb].
+  assert (Hch : 0 <= s_chunk (sstate0 c iv)) by (cbn; lia).
+  eapply (integrity_records P c iv iv ML DE EL EB (fun _ => eq_refl) A); try eassumption.
+  split; [reflexivity|]. cbn [core_of rstate0 r_hist k_hist sstate0 s_hist]. rewrite E. reflexivity.
+Qed.
+
+Theorem channel_integrity_auth_only P c iv ms recs evs os st pipe :
+  prims_ok P -> auth c = true -> encr c = false ->
+  trace P c iv (sstate0 c iv) ms recs -> no_forgery P 1 recs (fed evs) ->
+  run P c iv rstate0 [] evs = (os, st, pipe) ->
+  delivered os = firstn (length (delivered os)) ms.
+Proof.
+  intros OK A E T NF R.
+  destruct (stream_integrity_auth_only P c iv ms recs (fed evs) OK A E T NF) as [n Hn].
+  rewrite (frag_invariance _ _ _ _ _ _ _ (ok_blk _ OK) R) in Hn.
+  eapply prefix_of_prefix. exact Hn.
+Qed.
